@@ -255,6 +255,29 @@ pub fn check(case: &Case) -> CaseResult {
             "overflow:lost-without-capacity-newer-entries",
             "entry {id:?} was lost although only {later} entries were appended after it (capacity {cap})"
         );
+        // single driver: the queue is FIFO, so the entry was pushed out while every newer entry
+        // was still queued behind it - before the writer handed any newer entry to the stream.
+        // At that moment `capacity` newer appends had begun (capacity-1 queued + the displacing one).
+        if !case.concurrent || np == 1 {
+            let started_at: std::collections::HashMap<Id, usize> = evs
+                .iter()
+                .enumerate()
+                .filter_map(|(k, x)| if let Ev::AppendStart(y) = x { Some((*y, k)) } else { None })
+                .collect();
+            let first_newer_next = evs
+                .iter()
+                .enumerate()
+                .skip(i + 1)
+                .find(|(_, x)| matches!(x, Ev::Next(y, _) if started_at.get(y).copied().unwrap_or(0) > i))
+                .map(|(k, _)| k)
+                .unwrap_or(evs.len());
+            let begun = evs[i + 1..first_newer_next].iter().filter(|x| matches!(x, Ev::AppendStart(_))).count();
+            vensure!(
+                begun >= cap,
+                "overflow:lost-while-queue-not-full",
+                "entry {id:?} was lost, but before the writer delivered the first entry newer than it only {begun} newer appends had begun (capacity {cap}): the queue cannot have been full of newer entries"
+            );
+        }
     }
     vensure!(lost + delivered.len() == total, "queue:accounting", "lost {lost} + delivered {} != appended {total}", delivered.len());
     // N3: fully stalled single driver: the newest `capacity` entries survive, plus at most one
@@ -297,6 +320,9 @@ pub fn check(case: &Case) -> CaseResult {
     if case.concurrent && np > 1 {
         classes.push("multi-producer");
     }
+    if cap > 32 {
+        classes.push("capacity-above-32");
+    }
     if case.boxed {
         classes.push("boxed-queue");
     }
@@ -310,7 +336,7 @@ pub fn check(case: &Case) -> CaseResult {
     Ok(classes)
 }
 
-pub const RULE: &str = "capacity 1-16, typed/boxed queue with a local DebuggingRecorder, writer stalled behind a fuel gate; steps: Append{producer, n<=40} (single driver, or all 2-4 producers concurrently from real threads) and Grant(k) (k=0.. units of writer progress, waited for) or GrantAsync(k) (not waited for: the following appends race with the writer's pops on a full queue). Oracle (sound necessary conditions; the writer may hold one popped entry): N1 delivered ids are a subsequence of each producer's append order (and of the global order for a single driver), nothing twice; N2 an entry is lost only if >= capacity appends ended after its append started; N3 fully stalled single driver: the newest min(capacity, n) entries all survive and at most capacity+1 are delivered; N4 metrique_queue_overflows == number of lost entries exactly; N5 an append never blocks (10 s + causal confirmation that it completes when fuel is granted). Non-trivial = >=1 loss with partial writer progress (0 < fuel < appends)";
+pub const RULE: &str = "capacity 1-16 or 30-70, typed/boxed queue with a local DebuggingRecorder, writer stalled behind a fuel gate; steps: Append{producer, n<=40} (single driver, or all 2-4 producers concurrently from real threads) and Grant(k) (k=0.. units of writer progress, waited for) or GrantAsync(k) (not waited for: the following appends race with the writer's pops on a full queue). Oracle (sound necessary conditions; the writer may hold one popped entry): N1 delivered ids are a subsequence of each producer's append order (and of the global order for a single driver), nothing twice; N2 an entry is lost only if >= capacity appends ended after its append started and (single driver) >= capacity newer appends had begun before the writer delivered the first entry newer than it; N3 fully stalled single driver: the newest min(capacity, n) entries all survive and at most capacity+1 are delivered; N4 metrique_queue_overflows == number of lost entries exactly; N5 an append never blocks (10 s + causal confirmation that it completes when fuel is granted). Non-trivial = >=1 loss with partial writer progress (0 < fuel < appends)";
 
 pub fn run(ctx: &mut Ctx) {
     ctx.assume("the exact set of survivors is racy by one entry (the writer may already hold the oldest one); only conditions that hold on every schedule are asserted");
@@ -319,10 +345,10 @@ pub fn run(ctx: &mut Ctx) {
         SubCfg::new("c09-overflow", RULE, if q { 1_200 } else { 30_000 })
             .threads(ctx.tier.pick(4, 8))
             .shrink_iters(150)
-            .mandatory(&["loss", "stalled-writer", "multi-producer", "boxed-queue", "appends-racing-with-writer"]),
+            .mandatory(&["loss", "stalled-writer", "multi-producer", "boxed-queue", "appends-racing-with-writer", "capacity-above-32"]),
         || {
             (
-                prop_oneof![3 => 1u8..5, 2 => 5u8..=16],
+                prop_oneof![3 => 1u8..5, 2 => 5u8..=16, 1 => 30u8..=70],
                 any::<bool>(),
                 1u8..=4,
                 prop::collection::vec(
